@@ -1,0 +1,38 @@
+//go:build verif
+
+package dirwalk
+
+// Contracts for govc (see /verif/DESIGN.md, C06). Comment-only file.
+// What filepath.Glob / filepath.Walk / os.Stat return is the file system's business (assumed);
+// what this package does with it is proved: every path it is handed is passed on exactly once,
+// unchanged, and the channel is closed exactly once after the last path.
+
+//@ extern path/filepath.Glob
+//@   pure
+//@ extern path/filepath.Walk
+//@   modifies world
+//@ extern os.Stat
+//@   results (fi, err)
+//@   pure
+//@   ensures err == nil ==> fi != nil
+//@ iface os.FileInfo.IsDir
+//@   pure
+//@ iface io/fs.FileInfo.IsDir
+//@   pure
+
+// the walk callback: a regular file is sent under exactly the path the walk reports; a directory
+// or an entry the walk could not stat sends nothing
+//@ func GlobExpand$1$1
+//@   requires *c != nil && !chan_closed(*c) && (err == nil ==> info != nil)
+//@   ensures [file] err == nil && result == nil ==> chan_sends(*c) <= old(chan_sends(*c)) + 1
+//@   ensures [path] chan_sends(*c) == old(chan_sends(*c)) + 1 ==> chan_last_str(*c) == walkPath
+//@   ensures [error] err != nil ==> chan_sends(*c) == old(chan_sends(*c)) && result == err
+
+// the expander goroutine: each glob match is sent once, in order; a pattern without matches is
+// sent literally, once, and never in addition to its matches; close happens once, at the end
+//@ func GlobExpand$1
+//@   requires *c != nil && !chan_closed(*c)
+//@   assert at "c <- p" : len(expanded) == 0
+//@   assert at "close(c)" : !chan_closed(*c)
+//@   loop 1 invariant *c != nil && !chan_closed(*c)
+//@   loop 2 invariant *c != nil && !chan_closed(*c) && len(expanded) > 0
